@@ -14,7 +14,7 @@ THEOREMS = [_T + n for n in [
     "iou_range", "iou_symm", "iou_self", "iou_zero", "iouC_range", "iouC_eq_iou", "iouC_symm", "iouC_self",
     "iouC_zero", "timeIoU_eq_iou", "timeIoU_range", "timeIoU_symm", "timeIoU_self", "timeIoU_disjoint",
     "timeIoU_shift", "boxInter_le_min", "boxInter_symm", "boxInter_self", "boxInter_disjoint", "box_shift",
-    "affinity_ok_iff", "C06_range", "C06_symm", "C06_self_one", "C06_disjoint_zero", "C06_box_closed_form",
+    "affinity_ok_iff", "C06_range", "affinityP_symm", "C06_symm", "C06_self_one", "C06_disjoint_zero", "C06_box_closed_form",
     "C06_time_only_is_time_iou", "C06_time_branch_composes", "C06_time_extents", "C06_negative_buffer", "C06_shift_invariant",
     "C06_model_holds", "C06_contracts_satisfiable", "C06_pinned_formula_exceeds_one"]]
 LEVEL_TEXT = ("Lean theorems over the model of compute_affinity (everything GEOS computes is a parameter): the IoU and "
